@@ -136,6 +136,8 @@ def check_c01(ix):
             hs = ix.hist_status(d["inv"], oid)
             if hs not in TERMINAL:
                 continue
+            if d["how"] == "raise" and _serdes_fault_at(ix, d["inv"], pos):
+                continue  # the user-supplied SerDes failed (injected): the call may fail, it may not re-run anything
             if d["how"] == "abort":
                 if d["cls"] in SUSPEND and d["op"] in LEAF_OPS and not d.get("inner"):
                     out.append(V("C01", "suspended-on-terminal", f"{pos} is {hs} in the history of invocation {d['inv']} "
@@ -156,6 +158,14 @@ def check_c01(ix):
                     out.append(V("C01", "wrong-replayed-error", f"{pos}: recorded error message {t[1]!r} but got {d.get('msg')!r}",
                                  pos=pos, seq=d["s1"]))
     return out
+
+
+def _serdes_fault_at(ix, inv, pos):
+    """An injected failure of a custom SerDes hit the call at `pos` (or something inside it) in invocation `inv`."""
+    for e in ix.kinds["serdes-fail"]:
+        if e["i"] == inv and (e["pos"] == pos or e["pos"].startswith(pos + "/") or e["pos"].startswith(pos + "#")):
+            return True
+    return False
 
 
 def ground_truth(ix):
@@ -318,9 +328,12 @@ def check_c03(ix, prop="C03"):
             if d["how"] == "abort":
                 continue
             if d["how"] == "raise":
-                if d.get("inv_level"):
+                # StepInterruptedError from ctx.step is the final error of an interrupted at-most-once step whose strategy
+                # declined a retry: like every final error it may be raised only after the FAIL record is accepted
+                final_interrupt = op == "step" and d["cls"] == "StepInterruptedError"
+                if d.get("inv_level") and not final_interrupt:
                     continue
-                if not (d["cls"] == "CallableRuntimeError" or op == "wfcond"):
+                if not (d["cls"] == "CallableRuntimeError" or op == "wfcond" or final_interrupt):
                     continue
                 if op == "wfcond" and d["cls"] in ("ExecutionError", "ValidationError"):
                     continue
@@ -1263,6 +1276,11 @@ def check_c17(ix, cfg):
                         cid = ix.pos_id(c[1])
                         if cid is not None and ex.get("parentId") != cid:
                             out.append(V("C17", "record-wrong-parent", f"log at {pos} inside child {c[1]} carries parentId {ex.get('parentId')}", pos=pos, seq=e["s"]))
+                    elif c[0] == "branch":
+                        bid = _branch_id(ix, c[1], c[2])
+                        if bid is not None and ex.get("parentId") != bid:
+                            out.append(V("C17", "record-wrong-parent", f"log at {pos} inside branch {c[2]} of {c[1]} carries parentId "
+                                         f"{ex.get('parentId')}", pos=pos, seq=e["s"]))
     return out
 
 
@@ -1443,6 +1461,12 @@ def check_c16(ix, cfg):
         if e.get("under_done"):
             out.append(V("C16", "record-sent-during-replay", f"{e['type']} {e['action']} for {e.get('name')} sent under completed context "
                          f"{e.get('under_name')}", pos=e.get("name"), seq=e["s"]))
+    # a traversal that rebuilds a summarised result must come to an end
+    for info in w.invocations:
+        if info["outcome"] == "hang" and not any(e["i"] == info["n"] and not e.get("ok") for e in ix.kinds["api-end"]):
+            if any(e["i"] == info["n"] and e.get("rc") and e.get("status") == "SUCCEEDED" for e in ix.kinds["body-enter"]):
+                out.append(V("C16", "rebuild-never-finished", f"invocation {info['n']} re-traversed a summarised context and never ended: "
+                             f"{info.get('hang')}", table=info.get("hang_table")))
     # items of an oversized map/parallel must still report what their branches produced
     for v in check_c09(ix, cfg):
         if v["cls"] in ("item-without-outcome", "item-wrong-result", "item-wrong-error", "raised-for-valid-input"):
@@ -1719,6 +1743,8 @@ def check_unexplained_exceptions(ix, cfg, prop):
                 continue
             cls, msg = d["cls"], d.get("msg")
             if cls in ("CallableRuntimeError", "CallbackError"):
+                continue
+            if cls == "ExecutionError" and _serdes_fault_at(ix, d["inv"], pos):
                 continue
             if (cls, msg) in scripted or ((cls, None) in scripted):
                 continue
